@@ -35,6 +35,9 @@ func runOpsProp(r *Run, prop string) error {
 	}
 	o := newOpsGen(r, prop)
 	defer o.close()
+	if prop == "C01" {
+		c01UnrelatedParents(r, o)
+	}
 	for h := 0; h < histories; h++ {
 		f := newFamily(r.Rng)
 		for s := 0; s < steps; s++ {
@@ -72,12 +75,76 @@ func runOpsProp(r *Run, prop string) error {
 				f.members = append(f.members, out.child)
 			}
 		}
+		if prop == "C04" {
+			c04TieFamily(r, o, f)
+		}
 	}
 	return nil
+}
+
+// c04TieFamily: boundary family "fitness tie, equal gene counts, different disjoint genes": two siblings
+// that each received one different structural mutation are mated with equal fitness in both orders
+func c04TieFamily(r *Run, o *opsGen, f *family) {
+	for k := 0; k < 2; k++ {
+		g := f.pick(r.Rng)
+		var sib [2]*genetics.Genome
+		okk := true
+		for i := 0; i < 2; i++ {
+			c, err := genetics.VDuplicate(g, 500+i)
+			if err != nil {
+				okk = false
+				break
+			}
+			out := o.apply(opSpec{Kind: "mut", Mut: 1 + r.Rng.Intn(2), Times: 1}, c, nil, f.env, f.opts, false)
+			if out.err != nil || !out.flag || wfGenome(c) != nil {
+				okk = false
+				break
+			}
+			sib[i] = c
+		}
+		if !okk || len(sib[0].Genes) != len(sib[1].Genes) || snap(sib[0]).eq(snap(sib[1])) {
+			continue
+		}
+		for _, pair := range [][2]int{{0, 1}, {1, 0}} {
+			a, b := sib[pair[0]], sib[pair[1]]
+			op := opSpec{Kind: "mate", Method: r.Rng.Intn(2), NewId: 600, F1: 1.5, F2: 1.5}
+			before, b2 := snap(a), snap(b)
+			out := o.apply(op, a, b, f.env, f.opts, true)
+			in := o.lastInput
+			bad := func(key, what string) { r.Fail(Failure{Key: key, What: what, Input: in}) }
+			evalOracles("C04", op, a, before, b, out, bad)
+			if !b2.eq(snap(b)) {
+				bad("mate-modified-parent", "crossover modified its second parent")
+			}
+			r.Hist("operator", "tie-family-"+opName(op))
+			if out.err == nil {
+				r.Count("tie|"+before.str()+"|"+b2.str()+"|"+snap(out.child).str(), true)
+			}
+		}
+	}
 }
 
 // stepFor wraps step and remembers the Go-side input of the case for failure reports
 func (o *opsGen) stepFor(prop string, f *family, s int, mateProb float64, weights []int) (opSpec, *genetics.Genome, *genetics.Genome, opOutcome, gsnap) {
 	op, operand, g2, out, b2 := o.stepRec(f, s, mateProb, weights, prop)
 	return op, operand, g2, out, b2
+}
+
+// c01UnrelatedParents is the designated demonstration of a recorded finding: single-point crossover of
+// two well-formed genomes without common ancestry (the shorter parent's first innovation number is the
+// larger one) stops at once and returns a child without genes.
+func c01UnrelatedParents(r *Run, o *opsGen) {
+	a := readPlain("genomestart 1\ntrait 1 0.1 0 0 0 0 0 0 0\nnode 1 1 1 1 NullActivation\nnode 2 1 1 3 NullActivation\nnode 3 1 0 2 LinearActivation\n"+
+		"gene 1 2 3 2.5 false 2 0 true\ngenomeend 1\n", 1)
+	b := readPlain("genomestart 2\ntrait 1 0.1 0 0 0 0 0 0 0\nnode 1 1 1 1 NullActivation\nnode 2 1 1 3 NullActivation\nnode 3 1 0 2 LinearActivation\n"+
+		"gene 1 1 3 1.5 false 1 0 true\ngene 1 2 3 2.5 false 2 0 true\ngene 1 3 3 0.5 true 3 0 true\ngenomeend 2\n", 2)
+	op := opSpec{Kind: "mate", Method: 2, NewId: 9}
+	out := o.apply(op, a, b, &venv{NextI: 3, NextN: 3}, baseOptions(), true)
+	in := o.lastInput
+	r.Count("unrelated-parents", true)
+	if out.err == nil && out.child != nil {
+		if e := wfGenome(out.child); e != nil {
+			r.Fail(Failure{Key: "singlepoint-empty-child-unrelated-parents", What: "single-point crossover of unrelated well-formed parents produced an ill-formed genome: " + e.Error(), Input: in})
+		}
+	}
 }
